@@ -111,7 +111,11 @@ def macro_programs(draw):
             if r < 50 or not callees:
                 if d.pct() < 12:
                     # pad to a multiple of N ops (N need not be a power of two): labels behind it depend on the padding
-                    body.append(['stmt', ['pad', ['n', d.choice([1, 2, 3, 4, 5, 6, 7, 8, 12]), 'dec']]])
+                    if d.bool():
+                        body.append(['stmt', ['pad', ['n', d.choice([1, 2, 3, 4, 5, 6, 7, 8, 12]), 'dec']]])
+                    else:
+                        # the alignment depends on a parameter of the macro (substituted like any other operand)
+                        body.append(['stmt', ['pad', ['b', '+', count_arg(), ['n', d.choice([1, 2, 3, 5]), 'dec']]]])
                     body.append(['stmt', ['op', None, None]])
                 elif d.pct() < 80:
                     body.append(['stmt', ['op', expr() if d.pct() < 70 else None, expr() if d.pct() < 70 else None]])
